@@ -98,10 +98,9 @@ ListDouble(x, n) == IF n = 0 THEN x ELSE L2(ListDouble(x, n - 1), ListDouble(x, 
 RECURSIVE RepSub(_, _)
 RepSub(x, m) == IF m = 0 THEN Nil ELSE Pair(x, RepSub(x, m - 1))
 StackShapes ==
-  {ListDouble(x, n) : x \in {B3, Pair(B3, Nil), L2(B3, Atom(<< 1 >>))}, n \in 1..3}
-    \cup {RepSub(x, m) : x \in {Pair(B3, Nil), L2(B3, B3), L2(B3, Atom(<< 1 >>))}, m \in 2..4}
-    \cup {Pair(x, x) : x \in {L2(B3, B3), L2(B3, Atom(<< 1 >>)), RepSub(Pair(B3, Nil), 2)}}
-    \cup {L2(L2(B3, B4), L2(B3, B4)), Pair(L2(B3, B3), L2(L2(B3, B3), B3))}
+  {ListDouble(x, 2) : x \in {B3, Pair(B3, Nil), L2(B3, Atom(<< 1 >>))}}
+    \cup {RepSub(Pair(B3, Nil), m) : m \in 2..3}
+    \cup {Pair(L2(B3, B3), L2(B3, B3)), L2(B3, B3)}
 
 Families ==
   StackShapes \cup
